@@ -8,9 +8,16 @@ Streams of C12.
               ordered by casket): limits request_id log rewrite gzip header errors:<plain|page404|visible>
               status mime internal templates
       path  = html | bin      ae = 1 | 0 (Accept-Encoding: gzip sent)
-      inner = ret:<s>:<0|1> | write:<s|->:<hex>:<0|1> | panic | panicafter:<s|->:<hex>
-      out   = <commits> <status> <body> <followup>
-              body = - | '+' list of <r|g>:<chunk>; chunk inner:<hex> errtext:<s> custom:<s> debugerr debugpanic
+      inner = ret:<s>:<0|1> | write:<s|->:<hex>:<0|1>:<kind>:<cl 0|1>:<mode> | file:<kind>:<hex>
+              | panic | panicafter:<s|->:<hex>
+              kind = plain | tok | tparse | texec  (what text/template makes of the body)
+              mode = w | c | s | wf | fw | nw  (Write, io.Copy, io.WriteString, Write+Flush, Flush+Write, optional-interface
+                     assertions + CloseNotify + Push then Write: all a write for the model)
+              file: the request goes to the real static file server (Content-Length, ETag …), returns (200, nil)
+      out   = <commits> <status> <cl> <body> <followup>
+              cl   = - absent | = equals the bytes sent | ! differs
+              body = - | '+' list of <r|g>:<chunk>; chunk inner:<hex> rendered:<hex of the source>
+                     errtext:<s> custom:<s> debugerr debugpanic
               followup = ok | bad   (a plain request served right after by the same server)
 -/
 namespace Driver.C12
@@ -36,10 +43,19 @@ def parseStack (s : String) : Option Cfg :=
 def parseOptNat (s : String) : Option (Option Nat) :=
   if s = "-" then some none else s.toNat?.map some
 
+def parseKind : String → Option BodyKind
+  | "plain" => some .plain
+  | "tok" => some .tplOK
+  | "tparse" => some .tplParse
+  | "texec" => some .tplExec
+  | _ => none
+
 def parseInner (s : String) : Option Inner :=
   match s.splitOn ":" with
   | ["ret", st, e] => do pure (.ret (← st.toNat?) (e == "1"))
-  | ["write", st, b, e] => do pure (.write (← parseOptNat st) (← Driver.unhex b) (e == "1"))
+  | ["write", st, b, e, k, cl, _mode] => do
+    pure (.write (← parseOptNat st) (← Driver.unhex b) (e == "1") (← parseKind k) (cl == "1"))
+  | ["file", k, b] => do pure (.write (some 200) (← Driver.unhex b) false (← parseKind k) true)
   | ["panic"] => some .panicBefore
   | ["panicafter", st, b] => do pure (.panicAfter (← parseOptNat st) (← Driver.unhex b))
   | _ => none
@@ -56,6 +72,7 @@ def parseCase : List String → Option Case
 
 def showChunk : Chunk → String
   | .inner b => "inner:" ++ Driver.hex b
+  | .rendered b => "rendered:" ++ Driver.hex b
   | .errText s => s!"errtext:{s}"
   | .custom s => s!"custom:{s}"
   | .debugErr => "debugerr"
@@ -64,7 +81,25 @@ def showChunk : Chunk → String
 def showBody (b : List (Chunk × Bool)) : String :=
   if b.isEmpty then "-" else "+".intercalate (b.map fun x => (if x.2 then "g:" else "r:") ++ showChunk x.1)
 
-def showResp (r : Resp) : String := s!"{r.commits} {r.status} {showBody r.body}"
+def showCL (r : Resp) : String :=
+  match r.cl with
+  | none => "-"
+  | some _ => if clOK r then "=" else "!"
+
+def showResp (r : Resp) : String := s!"{r.commits} {r.status} {showCL r} {showBody r.body}"
+
+/-- an observed response: the Content-Length state is turned back into a symbolic value that is
+right (`=`) or wrong (`!`) for the observed body -/
+def mkResp (commits status : Nat) (cl : String) (body : List (Chunk × Bool)) : Option Resp :=
+  let mk := fun (c : Option Chunk) => some { commits := commits, status := status, body := body, cl := c, live := c }
+  if cl = "-" then mk none
+  else if cl = "=" then
+    (match body with
+      | [(c, false)] => mk (some c)
+      | [] => mk (some (.inner []))
+      | _ => mk none)   -- a correct length of a multi-chunk body: nothing to object to
+  else if cl = "!" then mk (some (.custom 0))  -- a value that describes no body the server sends
+  else none
 
 def parseChunk (s : String) : Option (Chunk × Bool) :=
   let enc := s.startsWith "g:"
@@ -72,6 +107,7 @@ def parseChunk (s : String) : Option (Chunk × Bool) :=
   else
     match ((s.drop 2).toString).splitOn ":" with
     | ["inner", h] => (Driver.unhex h).map fun b => (.inner b, enc)
+    | ["rendered", h] => (Driver.unhex h).map fun b => (.rendered b, enc)
     | ["errtext", n] => n.toNat?.map fun n => (.errText n, enc)
     | ["custom", n] => n.toNat?.map fun n => (.custom n, enc)
     | ["debugerr"] => some (.debugErr, enc)
@@ -92,13 +128,16 @@ def serveJudge (f : List String) (out : String) : String :=
   else if (out.splitOn "X:").length > 1 then "bad:body:the body is not decodable under its Content-Encoding"
   else
   match parseCase f, out.splitOn " " with
-  | some c, [cm, st, body, fu] =>
+  | some c, [cm, st, cl, body, fu] =>
     match cm.toNat?, st.toNat?, parseBody body with
     | some cm, some st, some body =>
-      let v := verdict (effectiveErrors c.cfg) c.inner { commits := cm, status := st, body := body }
-      if v != "ok" then v
-      else if fu != "ok" then "bad:not-contained:the server did not serve the next request correctly"
-      else "ok"
+      match mkResp cm st cl body with
+      | none => "bad:unparsable:" ++ out
+      | some r =>
+        let v := verdict (c.cfg.templates && c.req.html) (effectiveErrors c.cfg) c.inner r
+        if v != "ok" then v
+        else if fu != "ok" then "bad:not-contained:the server did not serve the next request correctly"
+        else "ok"
     | _, _, _ => "bad:unparsable:" ++ out
   | _, _ => "bad:unparsable:" ++ out
 
@@ -109,22 +148,25 @@ def liveModel (f : List String) : String :=
   | none => "bad-case"
   | some c =>
     let r := serve c.cfg c.req c.inner
-    s!"{if r.status = 0 then 200 else r.status} {showBody r.body} ok ok"
+    s!"{if r.status = 0 then 200 else r.status} {if clOK r then "ok" else "!"} {showBody r.body} ok ok"
 
 def liveJudge (f : List String) (out : String) : String :=
-  if (out.splitOn "ERR:").length > 1 then "bad:not-contained:the client did not get a complete response"
+  if (out.splitOn "ERR:").length > 1 then "bad:malformed:the client did not get a complete response (connection cut, or fewer bytes than declared)"
   else if (out.splitOn "other:").length > 1 then "bad:body:the body contains bytes that are neither the handler's nor a known error page"
   else if (out.splitOn "X:").length > 1 then "bad:body:the body is not decodable under its Content-Encoding"
   else
   match parseCase f, out.splitOn " " with
-  | some c, [st, body, f1, f2] =>
+  | some c, [st, cl, body, f1, f2] =>
     match st.toNat?, parseBody body with
     | some st, some body =>
-      let v := verdict (effectiveErrors c.cfg) c.inner { commits := 1, status := st, body := body }
-      if v != "ok" then v
-      else if f1 != "ok" then "bad:not-contained:the connection did not serve the next request"
-      else if f2 != "ok" then "bad:not-contained:the server did not serve a new connection"
-      else "ok"
+      match mkResp 1 st (if cl = "ok" then "-" else "!") body with
+      | none => "bad:unparsable:" ++ out
+      | some r =>
+        let v := verdict (c.cfg.templates && c.req.html) (effectiveErrors c.cfg) c.inner r
+        if v != "ok" then v
+        else if f1 != "ok" then "bad:not-contained:the connection did not serve the next request"
+        else if f2 != "ok" then "bad:not-contained:the server did not serve a new connection"
+        else "ok"
     | _, _ => "bad:unparsable:" ++ out
   | _, _ => "bad:unparsable:" ++ out
 
